@@ -63,6 +63,15 @@ class QCow2(AlignedStream):
         if self.header.cluster_bits < c_qcow2.MIN_CLUSTER_BITS or self.header.cluster_bits > c_qcow2.MAX_CLUSTER_BITS:
             raise InvalidHeaderError(f"Unsupported cluster size: 2**{self.header.cluster_bits}")
 
+        if self.header.version == 2:
+            # A version 2 header ends after snapshots_offset, whatever follows is not part of it
+            # The version 3 fields have fixed values for version 2 images
+            self.header.incompatible_features = 0
+            self.header.compatible_features = 0
+            self.header.autoclear_features = 0
+            self.header.refcount_order = 4
+            self.header.header_length = 72
+
         self.cluster_bits = self.header.cluster_bits
         self.cluster_size = 1 << self.cluster_bits
         self.subclusters_per_cluster = c_qcow2.QCOW_EXTL2_SUBCLUSTERS_PER_CLUSTER if self.has_subclusters else 1
